@@ -106,6 +106,37 @@ theorem crc8_detects_single_byte (p s : Bytes) (b b' k : Nat) (hp : ∀ x ∈ p,
     simp only [beq_eq_false_iff_ne, ne_eq]
     exact fun h => hk' h.symm
 
+/-- CRC-8 detects every burst error of at most 8 bits: if a frame passes the check and an error pattern confined to 8
+consecutive bits — the low `j` bits of one byte (`e1`) and the high `8-j` bits of the next (`h * 2^j`), anywhere in the
+frame including the CRC byte, not all zero — is xor-ed onto it, the result fails the check.  (Linearity of the regenerated
+table and the 2304 burst patterns are kernel-checked against the table; the rest is the usual residue argument.) -/
+theorem crc8_detects_burst (f : Bytes) (i k j h e1 : Nat) (hf : ∀ b ∈ f, b < 256) (hlen : f.length = i + 2 + k)
+    (hj : j ≤ 8) (h1 : e1 < 2 ^ j) (h2 : h < 2 ^ (8 - j)) (hnz : e1 ≠ 0 ∨ h ≠ 0) (hok : crcOk f = true) :
+    crcOk (xorL f (List.replicate i 0 ++ [e1, h * 2 ^ j] ++ List.replicate k 0)) = false := by
+  obtain ⟨b1, b2⟩ := burst_bounds j h e1 hj h1 h2
+  have hel : f.length = (List.replicate i 0 ++ [e1, h * 2 ^ j] ++ List.replicate k 0).length := by simp; omega
+  have he : ∀ b ∈ List.replicate i 0 ++ [e1, h * 2 ^ j] ++ List.replicate k 0, b < 256 := by
+    intro b hb
+    simp only [List.append_assoc, List.mem_append, List.mem_replicate, List.mem_cons, List.not_mem_nil, or_false] at hb
+    rcases hb with ⟨_, rfl⟩ | (rfl | rfl) | ⟨_, rfl⟩ <;> omega
+  have hne : f ≠ [] := by intro h0; rw [h0] at hlen; simp at hlen; omega
+  have hx := xorL_length f _ hel
+  have hne' : xorL f (List.replicate i 0 ++ [e1, h * 2 ^ j] ++ List.replicate k 0) ≠ [] := by
+    intro h0; rw [h0] at hx; simp at hx; exact hne (List.eq_nil_of_length_eq_zero hx.symm)
+  have r0 := (crcOk_iff_residue f hne hf).mp hok
+  have lin := foldl_crc_lin f _ 255 0 hel (by omega) (by omega) hf he
+  rw [Nat.xor_zero, r0, Nat.zero_xor] at lin
+  cases hc : crcOk (xorL f (List.replicate i 0 ++ [e1, h * 2 ^ j] ++ List.replicate k 0)) with
+  | false => rfl
+  | true =>
+    have := (crcOk_iff_residue _ hne' (xorL_lt f _ hf he)).mp hc
+    rw [lin] at this
+    exact absurd this (burst_residue_ne_zero i k j h e1 hj h1 h2 hnz)
+
+/-- non-vacuity: a burst across the boundary of the last data byte and the CRC byte of a real input frame -/
+example : crcOk (xorL [0x20, 8, 0xff, 0xff, 0xff, 0xfe, crc8 [0x20, 8, 0xff, 0xff, 0xff, 0xfe]]
+    (List.replicate 5 0 ++ [0x07, 0x15 * 2 ^ 3] ++ List.replicate 0 0)) = false := by decide
+
 /-- non-vacuity: a real 7-byte input frame passes, its single-byte corruptions fail -/
 example : crcOk [0x20, 8, 0xff, 0xff, 0xff, 0xfe, crc8 [0x20, 8, 0xff, 0xff, 0xff, 0xfe]] = true := by decide
 example : crcOk [0x20, 8, 0xff, 0xfd, 0xff, 0xfe, crc8 [0x20, 8, 0xff, 0xff, 0xff, 0xfe]] = false := by decide
@@ -362,18 +393,37 @@ theorem fast_ascii_frame_never_raises_partial (f : Bytes) (h : ∀ b ∈ f, b < 
   repeat' split
   all_goals simp
 
-/-- Known finding (recorded), PKONE: `_parse_msg` calls `msg.decode()` unguarded, so a frame with a non-ASCII byte raises
-out of the reader; frames of ASCII bytes are always delivered or dropped as empty. -/
-theorem pkone_noise_undecodable_witness : pkDeliver [80, 83, 255] = .undecodable := by decide
+/-- PKONE (after the repair): every frame of every byte stream is handled without raising — an empty frame is dropped,
+a frame with a non-ASCII byte is skipped with a warning, every other frame is delivered unchanged. -/
+theorem pkone_every_frame_handled (f : Bytes) :
+    (f = [] → pkDeliver f = .empty) ∧
+    (f ≠ [] → (∃ b ∈ f, 128 ≤ b) → pkDeliver f = .skipped) ∧
+    (f ≠ [] → (∀ b ∈ f, b < 128) → pkDeliver f = .msg f) := by
+  refine ⟨?_, ?_, ?_⟩
+  · intro h; subst h; rfl
+  · intro hne ⟨b, hb, h128⟩
+    have h1 : f.isEmpty = false := by cases f <;> simp_all
+    have h2 : f.any (fun b => decide (128 ≤ b)) = true := List.any_eq_true.mpr ⟨b, hb, by simpa using h128⟩
+    simp [pkDeliver, h1, h2]
+  · intro hne h
+    have h1 : f.isEmpty = false := by cases f <;> simp_all
+    have h2 : f.any (fun b => decide (128 ≤ b)) = false := by
+      rw [List.any_eq_false]; intro b hb; have := h b hb; simp; omega
+    simp [pkDeliver, h1, h2]
 
-theorem pkone_ascii_frame_never_raises_partial (f : Bytes) (h : ∀ b ∈ f, b < 128) : pkDeliver f ≠ .undecodable := by
-  unfold pkDeliver
-  have : f.any (fun b => decide (128 ≤ b)) = false := by
-    rw [List.any_eq_false]
-    intro b hb
-    have := h b hb
-    simp; omega
-  rw [this]
-  split <;> simp
+/-- PKONE: every well-formed frame after noise is delivered.  Whatever was carried and whatever noise `g` arrived (any
+bytes at all), after the next delimiter every following non-empty ASCII frame is delivered exactly, in order. -/
+theorem pkone_frames_after_noise_delivered (buf g : Bytes) (fs : List Bytes)
+    (h : ∀ f ∈ fs, PKE ∉ f ∧ f ≠ [] ∧ ∀ b ∈ f, b < 128) :
+    pkRun (pkRun buf (g ++ [PKE])).1 (fs.flatMap (· ++ [PKE])) = ([], fs.map .msg) := by
+  have key := delim_resync_then_delivered PKE buf g fs (fun f hf => (h f hf).1)
+  unfold pkRun
+  have e : (69 : Nat) = PKE := rfl
+  simp only [e]
+  rw [key]
+  simp only [Prod.mk.injEq, true_and]
+  apply List.map_congr_left
+  intro f hf
+  exact (pkone_every_frame_handled f).2.2 (h f hf).2.1 (h f hf).2.2
 
 end MpfVerif.C14
